@@ -472,24 +472,21 @@ impl<'a> Searcher<'a> {
                             .iter()
                             .enumerate()
                             .map(|(idx, i)| {
-                                if let Some(a) = a.get(*i) {
-                                    if let Ok(a) = a.1.parse::<i64>() {
-                                        if let Some(b) = b.get(*i) {
-                                            if let Ok(b) = b.1.parse::<i64>() {
-                                                return if directions[idx] { 
-                                                    a.cmp(&b) 
-                                                } else { 
-                                                    b.cmp(&a) 
-                                                };
-                                            }
-                                        }
-                                    }
+                                let x = &a.get(*i).unwrap().1;
+                                let y = &b.get(*i).unwrap().1;
+                                // integers exactly, other numbers (AVG, variances) by value, the rest as text
+                                let ordering = match (x.parse::<i64>(), y.parse::<i64>()) {
+                                    (Ok(x), Ok(y)) => x.cmp(&y),
+                                    _ => match (x.parse::<f64>(), y.parse::<f64>()) {
+                                        (Ok(x), Ok(y)) => x.total_cmp(&y),
+                                        _ => x.cmp(y),
+                                    },
+                                };
+                                if directions[idx] {
+                                    ordering
+                                } else {
+                                    ordering.reverse()
                                 }
-                                if directions[idx] { 
-                                    a.get(*i).unwrap().1.cmp(&b.get(*i).unwrap().1) 
-                                } else { 
-                                    b.get(*i).unwrap().1.cmp(&a.get(*i).unwrap().1) 
-                                } 
                             })
                             .find(|r| *r != std::cmp::Ordering::Equal)
                             .unwrap_or(std::cmp::Ordering::Equal)
